@@ -14,6 +14,7 @@ import base64
 import json
 import re
 
+from props.comps import Comp
 from vlib import hexs
 
 BITS = ["b0", "b1", "b2", "b3", "long-bit-name"]
@@ -330,7 +331,7 @@ def witness_canon():
 # output parsing / judging
 # ------------------------------------------------------------------------------------------------
 _F = re.compile(r"^(ok|DIFF \S+) dict=(\d+):(\d+) leak=(\d+):(\d+) lock=(\d+):(\d+)(@\S+)? dangling=(\d+)( aloneleak=\d+)?"
-                r"(?: left=[0-9a-f-]+)*(?: tsan=(\S+))?$")
+                r"(?: left=[0-9a-f-]+)*(?: res=(\S+))?(?: tsan=(\S+))?$")
 
 CANON_PRINT = re.compile(r"^lyplg_type_print_(bits|binary|date_and_time|ipv4_address|ipv4_address_no_zone|ipv4_prefix|"
                          r"ipv6_address|ipv6_address_no_zone|ipv6_prefix|union)$")
@@ -345,9 +346,9 @@ def parse_out(out):
         return None
     res = {"verdict": m.group(1), "dict": (int(m.group(2)), int(m.group(3))), "leak": (int(m.group(4)), int(m.group(5))),
            "lock": (int(m.group(6)), int(m.group(7))), "lock_where": m.group(8) or "", "dangling": int(m.group(9)),
-           "aloneleak": m.group(10), "tsan": []}
-    if m.group(11) and m.group(11) not in ("0", "?"):
-        for rep in m.group(11).split("|")[1:]:
+           "aloneleak": m.group(10), "res": m.group(11) or "", "tsan": []}
+    if m.group(12) and m.group(12) not in ("0", "?"):
+        for rep in m.group(12).split("|")[1:]:
             kind, _, stacks = rep.partition("~")
             st = [s.split("<") for s in stacks.split("/")]
             while len(st) < 2:
@@ -407,6 +408,198 @@ def classify_tsan(kind, s1, s2):
     if (rec_insert(s1) and rec_use(s2)) or (rec_insert(s2) and rec_use(s1)):
         return "err-rec-resize"
     return None
+
+
+# ------------------------------------------------------------------------------------------------
+# T2: forced schedules, model (coq/Sched.v through ocaml/run_conc.ml) against the C code
+# ------------------------------------------------------------------------------------------------
+_CANON = b"b0 b2"
+_FRESH = [b"zq1", b"zq2", b"zq3"]
+
+
+def scenario(rng, kind):
+    """one abstract scenario: per thread a list of calls, a total order of the calls (with preemptions), rendered for the C
+    driver (W/N/H/Z operations) and for the model (M:/O:/K: fields). kind: 'calls' (call-level interleaving), 'canon' (k
+    threads are preempted between the test of value->_canonical and the store), 'errrec' (a thread is preempted between
+    ly_err_get_rec and the dereference while the 6th error record is created)"""
+    if kind == "errrec":
+        nthr = 6
+        calls = [["L"] for _ in range(5)] + [["L"]]
+        victim = rng.randrange(5)
+        extra = rng.randrange(0, 3)
+        for _ in range(extra):                       # more stores / reads before the preemption (no new records)
+            t = rng.randrange(5)
+            calls[t].append(rng.choice(["L", "E"]))
+        pre = []
+        idx = [0] * nthr
+        pend = [(t, k) for t in range(5) for k in range(len(calls[t]))]
+        # program order respecting random interleaving of the first five threads
+        while any(idx[t] < len(calls[t]) for t in range(5)):
+            t = rng.choice([t for t in range(5) if idx[t] < len(calls[t])])
+            pre.append((t, None))
+            idx[t] += 1
+        calls[victim].append("E")
+        order = pre + [(victim, 3), (5, None), (victim, None)]
+        shared = False
+    else:
+        nthr = rng.randrange(2, 6)
+        shared = kind == "canon" or rng.random() < 0.6
+        calls = []
+        for t in range(nthr):
+            c = []
+            held = []
+            for _ in range(rng.randrange(1, 6)):
+                r = rng.random()
+                if r < 0.25:
+                    c.append("L")
+                elif r < 0.45:
+                    c.append("E")
+                elif r < 0.52:
+                    c.append("C")
+                elif r < 0.72:
+                    x = rng.choice(_FRESH)
+                    held.append(x)
+                    c.append("I" + hexs(x))
+                elif r < 0.84 and held:
+                    x = held.pop(rng.randrange(len(held)))
+                    c.append("R" + hexs(x))
+                elif shared:
+                    c.append("P")
+            calls.append(c or ["E"])
+        racers = []
+        if kind == "canon":
+            racers = rng.sample(range(nthr), rng.randrange(2, nthr + 1))
+            for t in racers:
+                calls[t].insert(0, "P")
+        order = [(t, 2) for t in racers]
+        idx = [0] * nthr
+        rest = []
+        while any(idx[t] < len(calls[t]) for t in range(nthr)):
+            t = rng.choice([t for t in range(nthr) if idx[t] < len(calls[t])])
+            rest.append((t, None))
+            idx[t] += 1
+        # a preempted first call is resumed by the thread's first complete entry
+        order += rest
+    # ---- C rendering: position i in the order = value of the sequence counter before the entry
+    cops = [[] for _ in range(nthr)]
+    pos_of_resume = {}
+    seen_pre = set()
+    nxt = [0] * nthr
+    # first pass: where is each preempted call resumed
+    for i, (t, k) in enumerate(order):
+        if k is not None:
+            seen_pre.add(t)
+        elif t in seen_pre and t not in pos_of_resume:
+            pos_of_resume[t] = i
+    started = set()
+    for i, (t, k) in enumerate(order):
+        if k is not None:
+            call = calls[t][nxt[t]]
+            hook = ("H%d" if call == "E" else "Z%d") % pos_of_resume[t]
+            cops[t] += ["W%d" % i, hook, _c_op(call)]
+            started.add(t)
+        elif t in started:
+            cops[t] += ["N"]                         # the resumed call ends: counter = position + 1
+            started.discard(t)
+            nxt[t] += 1
+        else:
+            cops[t] += ["W%d" % i, _c_op(calls[t][nxt[t]]), "N"]
+            nxt[t] += 1
+    for t in range(nthr):
+        cops[t].append("W%d" % len(order))           # cleanup of every thread only after all calls
+    # ---- model rendering
+    mops = []
+    for t in range(nthr):
+        held = []
+        m = []
+        n = 0
+        for c in calls[t]:
+            if c == "L":
+                n += 1
+                m.append("L%d" % (100 * t + n))
+            elif c == "P":
+                m.append("P0:" + hexs(_CANON))
+            else:
+                m.append(c)
+                if c[0] == "I":
+                    held.append(c[1:])
+                elif c[0] == "R":
+                    held.remove(c[1:])
+        m += ["R" + h for h in held] + ["C"]
+        mops.append(m)
+    mops.append(["F0:" + hexs(_CANON)] if shared else ["V1"])
+    morder = ["%d/%d" % (t, k) if k is not None else str(t) for (t, k) in order]
+    for t in range(nthr):
+        morder += [str(t)] * (len(mops[t]) - len(calls[t]))
+    morder.append(str(nthr))
+    docs = ["x:" + hexs(_BAD), "x:" + hexs(_SHARED1)]
+    return "\t".join(["conc", str(nthr), "1", "fv", "1" if shared else "-1", "2"] + docs + [",".join(o) for o in cops] +
+                     ["M:" + ",".join(m) for m in mops] + ["O:" + ",".join(morder), "K:" + ",".join(hexs(x) for x in _FRESH + [_CANON])])
+
+
+def _c_op(call):
+    return {"L": "Px0", "P": "Sx"}.get(call, call)
+
+
+class ConcModel(Comp):
+    """forced schedules: coq/Sched.v (run_calls) against the C code (impl/t_conc.c with W/N/H/Z operations): strings
+    left in the dictionary, accesses without the lock, dangling error record pointer, and what every ly_err_last of every
+    thread returned"""
+    name = "conc"
+    driver = "t_conc"
+    slice = "conc"
+    sanitize = False        # the dangling-pointer scenarios are real use-after-free: not run under ASan
+
+    def gen(self, rng, tier, scale=1.0):
+        L = [witness_err_rec_m(), witness_canon_m()]
+        n = self.n(tier, 60, 1500, scale)
+        for i in range(n):
+            L.append(scenario(rng, "calls" if i % 3 == 0 else ("canon" if i % 3 == 1 else "errrec")))
+        return L
+
+    def norm(self, line, out):
+        hooked_err = any(re.search(r"(^|,)H\d+", f) for f in line.split("\t")[8:] if not f[:2] in ("M:", "O:", "K:"))
+        if out.startswith("dangling="):         # model
+            m = re.match(r"dangling=(\d+) leak=(\d+) lockviol=(\d+) done=(\w+) res=(\S*)$", out)
+            if not m or m.group(4) != "true":
+                return "MODEL:" + out
+            if hooked_err:
+                return "dangling=%d" % min(1, int(m.group(1)))
+            nthr = int(line.split("\t")[1])
+            res = ";".join(m.group(5).split(";")[:nthr])
+            return "dangling=%s leak=%s lockviol=%s res=%s" % (m.group(1), m.group(2), min(1, int(m.group(3))), res)
+        if hooked_err and out.startswith("CRASH("):
+            return "dangling=1"                 # the dereference of the freed record crashed
+        r = parse_out(out)
+        if r is None:
+            return "IMPL:" + out
+        if hooked_err:
+            return "dangling=%d" % min(1, r["dangling"])
+        if r["verdict"] != "ok":
+            return "IMPL:" + out
+        return "dangling=%d leak=%d lockviol=%d res=%s" % (r["dangling"], r["leak"][0], min(1, r["lock"][1]), r["res"])
+
+    def witness(self, line, model_out, impl_out):
+        r = parse_out(impl_out)
+        if impl_out.startswith("CRASH(") or impl_out == "TIMEOUT":
+            return (None, impl_out)
+        if r is None:
+            return None
+        if r["lock"][1]:
+            return (None, "%d table accesses without the lock held, first %s" % (r["lock"][1], r["lock_where"]))
+        if r["verdict"] != "ok":
+            return (None, r["verdict"])
+        return None
+
+
+def witness_err_rec_m():
+    rng = __import__("random").Random(0)
+    return scenario(rng, "errrec")
+
+
+def witness_canon_m():
+    rng = __import__("random").Random(0)
+    return scenario(rng, "canon")
 
 
 class ConcSerial:
